@@ -133,6 +133,11 @@ func (w *walker) comments(c sqlparser.Comments) *cn {
 	parts := make([]string, len(c))
 	for i, x := range c {
 		parts[i] = string(x)
+		// the line feed that ends a line comment (`# ...`, `-- ...`) is not part of what it says: a line comment that
+		// was closed by the end of its enclosing /*! ... */ gets one when it is printed
+		if strings.HasPrefix(parts[i], "#") || strings.HasPrefix(parts[i], "--") {
+			parts[i] = strings.TrimRight(parts[i], "\r\n")
+		}
 	}
 	return n("Comments", strings.Join(parts, "\x00"))
 }
